@@ -89,7 +89,9 @@ def _get_radius_px(radius: nm, scale: nm) -> int:
         radius = float(radius)
     except ValueError:
         raise ValueError(f"radius must be a number, got {radius!r}")
-    radius_px = abs(radius / scale)
+    # NOTE: a quotient of floats such as 0.15 / 0.05 = 3.0000000000000004 must not be
+    # rounded up to 4 pixels; the same physical radius gives the same pixel radius.
+    radius_px = round(abs(radius / scale), 6)
     if radius_px < 1:
         return 0
     return int(np.ceil(radius_px))
